@@ -27,6 +27,8 @@
 (*           compile from a used rules object                              *)
 (*   sql     digest of the SQL text = first one recorded for (prog, pred)  *)
 (*   aux     same for the execution data                                   *)
+(*   rules   same for the digest of the parsed rules (ParseFile's result), *)
+(*           compared when both recordings parsed the text afresh          *)
 (* One verdict per trace is printed as <<"V", json>> naming the first      *)
 (* deviating Compile, the two digests and where the first digest was       *)
 (* recorded.  `explained` is TRUE when the implementation-shaped model of  *)
@@ -78,11 +80,11 @@ CompileShape(t, s, evs, ps) ==
 Dev(t, s, e, clause, want, ex) ==
   [clause |-> clause, step |-> s, prog |-> e.prog, pred |-> e.pred,
    mode |-> e.mode, used |-> e.used,
-   got |-> IF clause = "aux" THEN e.aux ELSE e.sql,
-   want |-> IF clause = "aux" THEN want.aux ELSE want.sql,
+   got |-> IF clause = "aux" THEN e.aux ELSE IF clause = "rules" THEN e.rul ELSE e.sql,
+   want |-> IF clause = "aux" THEN want.aux ELSE IF clause = "rules" THEN want.rul ELSE want.sql,
    first_trace |-> want.tid, first_step |-> want.step,
    explained |-> ex.sticky, explained_fail |-> ex.fail,
-   explained_leak |-> ex.leak]
+   explained_leak |-> ex.leak, explained_import |-> ex.imp]
 
 (* digests of the events of one Compile action, in order *)
 RECURSIVE RunEvents(_, _, _, _, _, _, _)
@@ -93,8 +95,8 @@ RunEvents(t, s, evs, k, sn, devs, explained) ==
         key == Key(e)
     IN IF key \notin DOMAIN sn
        THEN RunEvents(t, s, evs, k + 1,
-                      (key :> [sql |-> e.sql, aux |-> e.aux, tid |-> t.id,
-                               step |-> s]) @@ sn,
+                      (key :> [sql |-> e.sql, aux |-> e.aux, rul |-> e.rul,
+                               tid |-> t.id, step |-> s]) @@ sn,
                       devs, explained)
        ELSE
          LET want == sn[key]
@@ -102,6 +104,9 @@ RunEvents(t, s, evs, k, sn, devs, explained) ==
                   THEN <<Dev(t, s, e, "sql", want, explained)>>
                   ELSE IF e.aux # want.aux
                   THEN <<Dev(t, s, e, "aux", want, explained)>>
+                  \* digest of the parsed rules, when both were freshly parsed
+                  ELSE IF e.rul # "" /\ want.rul # "" /\ e.rul # want.rul
+                  THEN <<Dev(t, s, e, "rules", want, explained)>>
                   ELSE <<>>
          IN RunEvents(t, s, evs, k + 1, sn, devs \o d, explained)
 
@@ -109,7 +114,8 @@ ShapeDev(t, s) ==
   [clause |-> "shape", step |-> s, prog |-> t.hist[s].n, pred |-> "",
    mode |-> t.hist[s].mode, used |-> FALSE, got |-> "", want |-> "",
    first_trace |-> "", first_step |-> 0, explained |-> FALSE,
-   explained_fail |-> FALSE, explained_leak |-> FALSE]
+   explained_fail |-> FALSE, explained_leak |-> FALSE,
+   explained_import |-> FALSE]
 
 (* ps: process state under the "asbuilt" flag model, ps2: under "failsticky" *)
 RECURSIVE RunSteps(_, _, _, _, _, _)
@@ -135,11 +141,13 @@ RunSteps(t, s, ps, ps2, sn, devs) ==
                      ELSE IF decl.stage = "parse" THEN "ok" ELSE decl.stage]
              ex == [sticky |-> UnderFun(ps, h.n, h.mode, inc) /\ ~inc,
                     fail |-> UnderFun(ps2, h.n, h.mode, inc) /\ ~inc,
-                    leak |-> OtherEngineBefore(ps, a.eng)]
+                    leak |-> OtherEngineBefore(ps, a.eng),
+                    imp |-> ParsesNow(ps, h.n, h.mode) /\
+                            ImportedForOther(ps, h.n, HRange(a.mods))]
              r == RunEvents(t, s, evs, 1, sn, devs, ex)
          IN RunSteps(t, s + 1,
-                     AfterCompile("asbuilt", ps, h.n, h.mode, inc, a.stage, a.eng),
-                     AfterCompile("failsticky", ps2, h.n, h.mode, inc, a.stage, a.eng),
+                     AfterCompile("asbuilt", ps, h.n, h.mode, inc, a.stage, a.eng, HRange(a.mods)),
+                     AfterCompile("failsticky", ps2, h.n, h.mode, inc, a.stage, a.eng, HRange(a.mods)),
                      r.seen, r.devs)
 
 Run(t, sn) ==
@@ -152,7 +160,7 @@ Init ==
   /\ TLCSet(100, ndJsonDeserialize(IOEnv.TRACE_FILE))
   /\ TLCSet(1, 0)
   /\ pos = 1
-  /\ seen = ("$" :> [sql |-> "", aux |-> "", tid |-> "", step |-> 0])
+  /\ seen = ("$" :> [sql |-> "", aux |-> "", rul |-> "", tid |-> "", step |-> 0])
 
 Next ==
   /\ pos <= Len(Traces)
